@@ -19,5 +19,9 @@ func init() {
 		gfSpec{Pkg: "./pkg/crypto/keys", Func: "NewPrivateKeyFromBytes", Lean: "newPrivateKeyFromBytes"},
 		gfSpec{Pkg: "./pkg/encoding/fixedn", Func: "FromString", Lean: "fixednFromString"},
 		gfSpec{Pkg: "./pkg/util", Func: "Uint160DecodeBytesBE", Lean: "uint160DecodeBytesBE"},
+		gfSpec{Pkg: "./pkg/vm/emit", Func: "Int", Lean: "emitInt"},
+		gfSpec{Pkg: "./pkg/vm/emit", Func: "bigInt", Lean: "emitBigInt"},
+		gfSpec{Pkg: "./pkg/encoding/fixedn", Func: "Fixed8FromString", Lean: "fixed8FromString"},
+		gfSpec{Pkg: "./pkg/core/fee", Func: "pushIntSize", Lean: "feePushIntSize"},
 	)
 }
